@@ -1110,6 +1110,13 @@ func ruleC12DecidedByEqual(c *Ctx) {
 		})
 		if region != nil {
 			c.eachFamOwn(m.E, func(i ssa.Instruction) {
+				// a membership test in a table keyed by a representation of the instance
+				if lk, isLk := i.(*ssa.Lookup); isLk && domIn(region, lk) {
+					if dependsOnCallNamed(lk.Index, []string{"reflect.Value.String", "reflect.Value.Float", "reflect.Value.Int", "reflect.Value.Interface"}, 4) {
+						c.R.Bad(rule, kw+":direct-comparison", c.pos(lk), kw+" looks a representation of the instance up in a table instead of going through the equality function: a json.Number (kind string) matches the string with the same text, so enum [\"200\",\"404\"] accepts the number 404 decoded with UseNumber")
+					}
+					return
+				}
 				bo, ok := i.(*ssa.BinOp)
 				if !ok || (bo.Op != token.EQL && bo.Op != token.NEQ) || !region.Dominates(bo.Block()) {
 					return
@@ -1583,4 +1590,41 @@ func returnedValue(ret *ssa.Return, k int) ssa.Value {
 		}
 	}
 	return v
+}
+
+func init() {
+	p := Properties["C11"]
+	p.Rules = append(p.Rules, Rule{"C11/equal-is-equality", ruleC11EqualIsEquality})
+}
+
+// The exported Equal is the equality function applied to the two values: every return of Equal returns the
+// result of that one call, and nothing decides the answer before it (a "fast path" comparing two values of the
+// same Go type with == compares json.Numbers by spelling).
+func ruleC11EqualIsEquality(c *Ctx) {
+	const rule = "C11/equal-is-equality"
+	eq := c.Equality(rule)
+	E := c.fn("Equal")
+	if eq == nil || E == nil {
+		if E == nil {
+			c.R.Unresolved(rule, "exported function Equal")
+		}
+		return
+	}
+	n := 0
+	for _, fi := range c.familyInstrs(E) {
+		ret, ok := fi.I.(*ssa.Return)
+		if !ok || len(fi.Path) > 0 || ret.Parent() != E || len(ret.Results) != 1 {
+			continue
+		}
+		n++
+		okAll := true
+		for _, src := range traceSourcesDeep(returnedValue(ret, 0)) {
+			call, isCall := src.(*ssa.Call)
+			if !isCall || call.Call.StaticCallee() != eq {
+				okAll = false
+			}
+		}
+		c.R.Check(okAll, rule, fmt.Sprintf("Equal:return#%d", n), c.pos(ret), "Equal returns the result of the equality function", "Equal can return an answer that is not the result of the equality function (a shortcut before it): values the shortcut compares by their Go representation (two json.Numbers, by spelling) get an answer that differs from JSON equality")
+	}
+	c.R.Floor(rule, "returns of Equal", n, 1)
 }
